@@ -716,3 +716,220 @@ def replay_namemap(rp):
                     q.__name__, re.escape(nm_), rp["recursive"], [h.name for h in res], cnt)
         return False, "%s(netlist, recursive=%s): every name %s resolves to its occurrences" % (
             q.__name__, rp["recursive"], sorted(expect))
+
+
+def hpins_job(fixture, tier, timeout_ms=300000):
+    """get_hpins(<hierarchical wire>): exactly the port pins (of the wire's own instance) and the sub-instance pins
+    attached to that wire, each once -- for every hierarchical wire of the fixture and every connection pattern."""
+    import importlib
+    ghp = importlib.import_module("spydrnet.util.get_hpins")
+    t0 = time.time()
+    base = "C12/get_hpins(hwire){%s}" % fixture
+    u, pre, fx = H.build(fixture)
+    A = pre.type_constraints() + spec.inv_all(pre) + H.local_nets(pre, fx)
+    A = [B(a) for a in A if a is not True]
+    paths = H.enumerate_paths(u, fx)
+    W = [p for p in paths if u.cls_of(p[-1])[0] == "Wire"]
+    P = [p for p in paths if u.cls_of(p[-1])[0] == "InnerPin"]
+    out = []
+    for start in W:
+        name = "%s/from=%s" % (base, "/".join(str(x) for x in start))
+        heap = pre.copy()
+        ctx = Ctx(heap, M.REAL)
+        M.listeners_none(ctx)
+        ctx.loop_bound = 8
+        H.install_hrefs(ctx, u, fx)
+        fr = Frame(None, True, {})
+        keep_all = lambda x: True
+        ctx.natives[keep_all] = lambda c, f, a, k: True
+        try:
+            res = call_function(ctx, fr, ghp._get_hpins, [SList(1, [start]), ("*",), False, True, False, keep_all])
+        except Unsupported as e:
+            out.append(result(name, INCONCLUSIVE, "E1/symheap", detail="Unsupported: %s" % e, wall_s=time.time() - t0))
+            continue
+        ipath = tuple(start[:-2])
+        wire = start[-1]
+        cs, nodup = [], []
+        for p in P:
+            pin_slot = u.cls_of(p[-1])[1]
+            holder = tuple(p[:-2])
+            if holder == ipath:
+                want = EQ(pre.sc[("InnerPin", "_wire")][pin_slot], wire)
+            elif holder[:-1] == ipath and len(holder) == len(ipath) + 1:
+                child = u.cls_of(holder[-1])[1]
+                o = pre.pinmap[child][pin_slot]
+                want = False if o == NONE_ID else EQ(pre.sc[("OuterPin", "_wire")][u.cls_of(o)[1]], wire)
+            else:
+                want = False
+            pid = ATOMS.intern(p)
+            hits = [AND(present(res, k), EQ(to_atom(res.el[k]).t, pid)) for k in range(res.cap) if res.el[k] is not None]
+            member = OR(*hits)
+            cs.append(EQ(member, want) if (is_sym(member) or is_sym(want)) else member == want)
+            for x in range(len(hits)):
+                for y in range(x):
+                    nodup.append(NOT(AND(hits[x], hits[y])))
+        funcs = sorted(fn_ident(f) for f in ctx.funcs_seen)
+        bounds = dict(u.describe(), fixture=fixture, start=list(start), hierarchical_pins=len(P))
+        ok = [B(NOT(ctx.bound)), B(NOT(ctx.exc))]
+        tw = {"returns": M.check(A, AND(NOT(ctx.exc), NOT(ctx.bound)), 300000)[0]}
+        if tw["returns"] != "sat":
+            out.append(result(name, VACUOUS if tw["returns"] == "unsat" else INCONCLUSIVE, "E1/symheap", twins=tw, bounds=bounds,
+                              detail="normal return not shown reachable (%s)" % tw["returns"]))
+            continue
+        for g, goal in (("exactly-the-pins-on-that-wire", NOT(AND(*cs))), ("no-duplicates", NOT(AND(*nodup))), ("never-raises", None)):
+            oname = name + "/" + g
+            if goal is None:
+                st, dt, mdl = M.check(A + [B(NOT(ctx.bound))], ctx.exc, timeout_ms)
+            else:
+                st, dt, mdl = M.check(A + ok, goal, timeout_ms)
+            if st == "unsat":
+                out.append(result(oname, DISCHARGED, "E1/symheap", queries=1, solver_s=dt, twins=tw, bounds=bounds,
+                                  functions=funcs, detail="unsat", wall_s=time.time() - t0, paths=1))
+            elif st != "sat":
+                out.append(result(oname, INCONCLUSIVE, "E1/symheap", detail="solver: %s" % st, bounds=bounds))
+            else:
+                state = replay.heap_to_state(pre, mdl)
+                rp = {"engine": "E1", "property": "C12", "obligation": oname, "kind": "hpins", "state": state,
+                      "start": list(start), "fixture": fixture}
+                try:
+                    viol, txt = replay_hpins(rp)
+                except Exception:
+                    viol, txt = False, "replay crashed: " + traceback.format_exc()[-400:]
+                out.append(result(oname, VIOLATED if viol else ERROR, "E1/symheap", queries=1, solver_s=dt, twins=tw,
+                                  bounds=bounds, functions=funcs, replay=rp if viol else None,
+                                  detail=txt if viol else "counterexample did not reproduce: " + txt,
+                                  wall_s=time.time() - t0))
+    return out
+
+
+def replay_hpins(rp):
+    import spydrnet as sdn
+    from spydrnet.util.hierarchical_reference import HRef
+    with replay.listener_config("none"):
+        objs = replay.build(rp["state"])
+        built, _ = replay.abstract(objs)
+        diffs = replay.states_equal(rp["state"], built)
+        if diffs:
+            return False, "built state differs from the model: " + "; ".join(diffs[:3])
+        seq = [objs[g] for g in rp["start"]]
+        start = HRef.from_sequence(seq)
+        got = [tuple(id(x) for x in _seq(h)) for h in sdn.get_hpins(start)]
+        ipath, wire = seq[:-2], seq[-1]
+        want = []
+        for pin in wire.pins:
+            if isinstance(pin, sdn.InnerPin):
+                want.append(tuple(id(x) for x in ipath + [pin.port, pin]))
+            else:
+                want.append(tuple(id(x) for x in ipath + [pin.instance, pin.inner_pin.port, pin.inner_pin]))
+        bad = sorted(got) != sorted(want)
+        return bad, "get_hpins(hierarchical wire) returned %d pins, %d are attached to it" % (len(got), len(want))
+
+
+def selection_job(fixture, tier, timeout_ms=300000):
+    """get_hwires(<hierarchical pin>, selection=INSIDE / OUTSIDE): exactly the wire attached on the inside,
+    respectively the outside, of that pin (nothing if that side is open) -- for every hierarchical pin."""
+    import importlib
+    ghw = importlib.import_module("spydrnet.util.get_hwires")
+    from spydrnet.util.selection import Selection
+    t0 = time.time()
+    u, pre, fx = H.build(fixture)
+    A = pre.type_constraints() + spec.inv_all(pre) + H.local_nets(pre, fx)
+    A = [B(a) for a in A if a is not True]
+    paths = H.enumerate_paths(u, fx)
+    W = [p for p in paths if u.cls_of(p[-1])[0] == "Wire"]
+    P = [p for p in paths if u.cls_of(p[-1])[0] == "InnerPin"]
+    out = []
+    for start in P:
+        pin_slot = u.cls_of(start[-1])[1]
+        holder = tuple(start[:-2])
+        for sel, sel_name in ((Selection.INSIDE, "INSIDE"), (Selection.OUTSIDE, "OUTSIDE")):
+            name = "C12/get_hwires(hpin,%s){%s}/from=%s" % (sel_name, fixture, "/".join(str(x) for x in start))
+            heap = pre.copy()
+            ctx = Ctx(heap, M.REAL)
+            M.listeners_none(ctx)
+            ctx.loop_bound = 8
+            H.install_hrefs(ctx, u, fx)
+            fr = Frame(None, True, {})
+            keep_all = lambda x: True
+            ctx.natives[keep_all] = lambda c, f, a, k: True
+            try:
+                res = call_function(ctx, fr, ghw._get_hwires, [SList(1, [start]), sel, ("*",), False, True, False, keep_all])
+            except Unsupported as e:
+                out.append(result(name, INCONCLUSIVE, "E1/symheap", detail="Unsupported: %s" % e, wall_s=time.time() - t0))
+                continue
+            cs, nodup = [], []
+            for b in W:
+                wslot = b[-1]
+                if sel is Selection.INSIDE:
+                    want = EQ(pre.sc[("InnerPin", "_wire")][pin_slot], wslot) if tuple(b[:-2]) == holder else False
+                else:
+                    want = False
+                    if len(holder) > 1 and tuple(b[:-2]) == holder[:-1]:
+                        inst = u.cls_of(holder[-1])[1]
+                        o = pre.pinmap[inst][pin_slot]
+                        if o != NONE_ID:
+                            want = EQ(pre.sc[("OuterPin", "_wire")][u.cls_of(o)[1]], wslot)
+                bid = ATOMS.intern(b)
+                hits = [AND(present(res, k), EQ(to_atom(res.el[k]).t, bid)) for k in range(res.cap) if res.el[k] is not None]
+                member = OR(*hits)
+                cs.append(EQ(member, want) if (is_sym(member) or is_sym(want)) else member == want)
+                for x in range(len(hits)):
+                    for y in range(x):
+                        nodup.append(NOT(AND(hits[x], hits[y])))
+            funcs = sorted(fn_ident(f) for f in ctx.funcs_seen)
+            bounds = dict(u.describe(), fixture=fixture, start=list(start), selection=sel_name)
+            ok = [B(NOT(ctx.bound)), B(NOT(ctx.exc))]
+            tw = {"returns": M.check(A, AND(NOT(ctx.exc), NOT(ctx.bound)), 300000)[0]}
+            if tw["returns"] != "sat":
+                out.append(result(name, VACUOUS if tw["returns"] == "unsat" else INCONCLUSIVE, "E1/symheap", twins=tw,
+                                  bounds=bounds, detail="normal return not shown reachable (%s)" % tw["returns"]))
+                continue
+            for g, goal in (("exactly-the-wire-on-that-side", NOT(AND(*(cs + nodup)))), ("never-raises", None)):
+                oname = name + "/" + g
+                if goal is None:
+                    st, dt, mdl = M.check(A + [B(NOT(ctx.bound))], ctx.exc, timeout_ms)
+                else:
+                    st, dt, mdl = M.check(A + ok, goal, timeout_ms)
+                if st == "unsat":
+                    out.append(result(oname, DISCHARGED, "E1/symheap", queries=1, solver_s=dt, twins=tw, bounds=bounds,
+                                      functions=funcs, detail="unsat", wall_s=time.time() - t0, paths=1))
+                elif st != "sat":
+                    out.append(result(oname, INCONCLUSIVE, "E1/symheap", detail="solver: %s" % st, bounds=bounds))
+                else:
+                    state = replay.heap_to_state(pre, mdl)
+                    rp = {"engine": "E1", "property": "C12", "obligation": oname, "kind": "selection", "state": state,
+                          "start": list(start), "fixture": fixture, "selection": sel_name}
+                    try:
+                        viol, txt = replay_selection(rp)
+                    except Exception:
+                        viol, txt = False, "replay crashed: " + traceback.format_exc()[-400:]
+                    out.append(result(oname, VIOLATED if viol else ERROR, "E1/symheap", queries=1, solver_s=dt, twins=tw,
+                                      bounds=bounds, functions=funcs, replay=rp if viol else None,
+                                      detail=txt if viol else "counterexample did not reproduce: " + txt,
+                                      wall_s=time.time() - t0))
+    return out
+
+
+def replay_selection(rp):
+    import spydrnet as sdn
+    from spydrnet.util.hierarchical_reference import HRef
+    with replay.listener_config("none"):
+        objs = replay.build(rp["state"])
+        built, _ = replay.abstract(objs)
+        diffs = replay.states_equal(rp["state"], built)
+        if diffs:
+            return False, "built state differs from the model: " + "; ".join(diffs[:3])
+        seq = [objs[g] for g in rp["start"]]
+        start = HRef.from_sequence(seq)
+        got = [tuple(id(x) for x in _seq(h)) for h in sdn.get_hwires(start, selection=rp["selection"])]
+        holder, pin = seq[:-2], seq[-1]
+        want = []
+        if rp["selection"] == "INSIDE":
+            if pin.wire is not None:
+                want.append(tuple(id(x) for x in holder + [pin.wire.cable, pin.wire]))
+        elif len(holder) > 1:
+            op = holder[-1].pins[pin]
+            if op.wire is not None:
+                want.append(tuple(id(x) for x in holder[:-1] + [op.wire.cable, op.wire]))
+        return sorted(got) != sorted(want), "get_hwires(hierarchical pin, %s) returned %d wires, expected %d" % (
+            rp["selection"], len(got), len(want))
